@@ -31,7 +31,7 @@ COQ_KIND = {"none": "FNone", "Runner": "FRunner", "Harvester": "FHarvester", "Sa
 FAILS = {  # name -> (model tag, kinds it applies to)
     "incomplete": (1, KINDS), "unreadable-result": (3, KINDS), "unreadable-result-listed-last": (3, KINDS),
     "wrong-var-names": (4, ["Runner", "Harvester"]),
-    "surplus-results": (5, KINDS), "merge-conflict": (6, ["Harvester"]), "save-error": (6, ["Harvester", "Sampler"]),
+    "surplus-results": (5, KINDS), "merge-conflict": (6, ["Harvester"]), "merge-conflict-deleted": (6, ["Harvester"]), "save-error": (6, ["Harvester", "Sampler"]),
 }
 
 
@@ -147,6 +147,12 @@ class Scenario:
             self.farmer._full_ds = None
             self.retry_opts = {"overwrite": True}      # the documented way to resolve a conflict
             return lambda: None
+        if fail == "merge-conflict-deleted":
+            # the same conflict, corrected by deleting the conflicting dataset through the harvester's own
+            # delete_ds(): the retry then delivers (and saves) exactly the crop's data
+            other = xyzpy.Harvester(xyzpy.Runner(fn_other, var_names="out"), data_name=self.farmer.data_name)
+            other.harvest_combos({"a": [1], "b": [4]}, verbosity=0)
+            return lambda: self.farmer.delete_ds()
         if fail == "save-error":
             d = os.path.join(self.dir, "data")
             shutil.rmtree(d)
